@@ -557,6 +557,36 @@ impl ActivePeers {
         self.inner_mut().add(own_peer_id, new_connection)
     }
 
+    #[cfg(bmwill_anemo_verif)]
+    #[must_use]
+    pub(crate) fn verif_add(
+        &self,
+        own_peer_id: &PeerId,
+        new_connection: Connection,
+    ) -> Option<Connection> {
+        self.add(own_peer_id, new_connection)
+    }
+
+    #[cfg(bmwill_anemo_verif)]
+    pub(crate) fn verif_len(&self) -> usize {
+        self.len()
+    }
+
+    #[cfg(bmwill_anemo_verif)]
+    pub(crate) fn verif_tie_break(
+        own_peer_id: &PeerId,
+        remote_peer_id: &PeerId,
+        existing_origin: ConnectionOrigin,
+        new_origin: ConnectionOrigin,
+    ) -> bool {
+        ActivePeersInner::simultaneous_dial_tie_breaking(
+            own_peer_id,
+            remote_peer_id,
+            existing_origin,
+            new_origin,
+        )
+    }
+
     fn inner(&self) -> std::sync::RwLockReadGuard<'_, ActivePeersInner> {
         self.0.read().unwrap()
     }
